@@ -8,6 +8,10 @@ DC = os.path.join(VERIF, "derive_cases")
 def build_cases_crate():
     env = dict(os.environ, CARGO_NET_OFFLINE="true")
     t = time.time()
+    global DC
+    if ALT:
+        crate_dir(HARNESS_DIR)
+    DC = crate_dir(os.path.join(VERIF, "derive_cases"))
     r = subprocess.run(["cargo", "build", "--offline", "--quiet"], cwd=DC, text=True, capture_output=True, env=env)
     if r.returncode != 0:
         raise ToolError("derive_cases build failed (a derived type does not compile?):\n" + r.stderr[-3000:])
